@@ -27,6 +27,14 @@ func newSimClient(cl *verifsim.Cluster, opts ...Option) *client {
 	return c
 }
 
+// newSimAdminClient builds the real admin client against cl (the master is the server cl.MasterAddr).
+func newSimAdminClient(cl *verifsim.Cluster, opts ...Option) *client {
+	all := append([]Option{RegionDialer(cl.Dial), Logger(discardLogger), FlushInterval(time.Millisecond)}, opts...)
+	c := newAdminClient("zk.invalid:2181", all...).(*client)
+	c.zkClient = simZK{cl}
+	return c
+}
+
 type simReport struct {
 	Scenarios  int              `json:"scenarios"`
 	Events     int              `json:"events"`
